@@ -1,249 +1,20 @@
-(* Cli/Escape.v — model of the JSON-mode output side and the input parser of
-   rinklecate/src/player.rs.  Model file: no proofs.
-
-     escape_json_string   its match arms are the REGENERATED table
-                          Gen/CliGen.v (cli_escape_arms), interpreted in order
-     render_json          one function from a message to the characters the
-                          player writes for it in -j mode (println!/print!)
-     parse_input          player.rs:parse_input
-   The format literals written here are compared with the literals of the
-   source by Cli/CliTie.v (cli_json_formats is regenerated on every run).   *)
+(* Cli/Escape.v — the command-line model (Cli/EscapeCore.v) instantiated with
+   the tables REGENERATED from rinklecate/src/player.rs (Gen/CliGen.v): the
+   match arms of escape_json_string, how the failed-divert line and the help
+   line interpolate their arguments, the help text.  Model file: no proofs. *)
 From Ink.Data Require Import Types.
 From Ink.Json Require Import JsonStd.
+From Ink.Cli Require Export EscapeCore.
 From Ink.Gen Require Import CliGen.
-
-(* format!("\\u{:04x}", c as u32): lower-case hex, zero-padded to four digits *)
-Definition u04x (c : N) : text :=
-  if c <? 65536 then
-    [c_bslash; c_u; hex_lower (c / 4096); hex_lower ((c / 256) mod 16);
-     hex_lower ((c / 16) mod 16); hex_lower (c mod 16)]
-  else [c_bslash; c_u] ++ show_hex c.
-
-(* the arms of `match c` in source order; a Rust match is exhaustive and the
-   generator insists that the last arm is the catch-all `c => out.push(c)`,
-   so the [] case is never reached with a generated table *)
-Fixpoint escape_char_arms (arms : list (N * N * list N)) (c : N) : text :=
-  match arms with
-  | [] => [c]
-  | (k, p, s) :: r =>
-      if N.eqb k 0 then (if N.eqb c p then s else escape_char_arms r c)
-      else if N.eqb k 1 then (if c <? p then u04x c else escape_char_arms r c)
-      else [c]
-  end.
-
-Definition escape_json_string_gen (arms : list (N * N * list N)) (s : text) : text :=
-  flat_map (escape_char_arms arms) s.
 
 (* player.rs:escape_json_string *)
 Definition escape_json_string (s : text) : text := escape_json_string_gen cli_escape_arms s.
-
-(* the characters (below 128) that do NOT survive escape + strict parse: what
-   the checks replay on the binary when the round-trip theorem fails *)
-Fixpoint char_range (n : nat) : list N :=
-  match n with O => [] | S k => char_range k ++ [N.of_nat k] end.
-Definition char_roundtrips (arms : list (N * N * list N)) (c : N) : bool :=
-  match parse_string (quote (escape_json_string_gen arms [c])) with
-  | Some [c'] => N.eqb c' c
-  | _ => false
-  end.
-Definition cli_bad_chars_gen (arms : list (N * N * list N)) : list N :=
-  filter (fun c => negb (char_roundtrips arms c)) (char_range 128).
 Definition cli_bad_chars : list N := cli_bad_chars_gen cli_escape_arms.
 
-(* `s.replace('"', "\\\"")` *)
-Definition replace_quote (s : text) : text :=
-  flat_map (fun c => if N.eqb c c_quote then [c_bslash; c_quote] else [c]) s.
-
-(* ---------- messages of the JSON protocol ---------- *)
-Inductive cli_msg :=
-| MText (s : text)                          (* evaluate_story: one line of story text *)
-| MTags (tags : list text)                  (* evaluate_story: tags of that line (non-empty) *)
-| MChoices (cs : list (text * list text))   (* print_choices_json: text, tags *)
-| MIssues (msgs : list text)                (* flush_messages: warnings then errors *)
-| MDivertIssue (path err : text)            (* play: choose_path_string failed *)
-| MCmdOutput                                (* play: help *)
-| MNeedInput                                (* print!, no newline *)
-| MEnd
-| MClose.
-
-Definition nl : text := [c_nl].
-Definition jq (body : text) : text := c_quote :: body ++ [c_quote].   (* format!("\"{}\"", ..) *)
-Definition sep_comma_space : text := [c_comma; c_space].              (* .join(", ") *)
-
-Definition render_strings (esc : text -> text) (l : list text) : text :=
-  join_with sep_comma_space (map (fun t => jq (esc t)) l).
-
-Definition divert_message (path err : text) : text :=
-  T "Error diverting to '" ++ path ++ T "': " ++ err.
-
-Section Render.
-  Variable arms : list (N * N * list N).
-  Variable divert_mode help_mode : N.
-  Variable help_msg : text.
-  Let esc := escape_json_string_gen arms.
-
-  Definition render_choice (c : text * list text) : text :=
-    let (t, tags) := c in
-    match tags with
-    | [] => T "{""text"": """ ++ esc t ++ T """}"
-    | _ => T "{""text"": """ ++ esc t ++ T """, ""tags"": [" ++ render_strings esc tags
-           ++ T "], ""tag_count"": " ++ show_N (N.of_nat (length tags)) ++ T "}"
-    end.
-
-  Definition render_json_gen (m : cli_msg) : text :=
-    match m with
-    | MText s => T "{""text"": """ ++ esc s ++ T """}" ++ nl
-    | MTags tags => T "{""tags"": [" ++ render_strings esc tags ++ T "]}" ++ nl
-    | MChoices cs =>
-        T "{""choices"": [" ++ join_with sep_comma_space (map render_choice cs) ++ T "]}" ++ nl
-    | MIssues msgs => T "{""issues"": [" ++ render_strings esc msgs ++ T "]}" ++ nl
-    | MDivertIssue path err =>
-        if N.eqb divert_mode 0 then
-          (* println!("{{\"issues\": [\"Error diverting to '{}': {}\"]}}", path,
-                      e.to_string().replace('"', "\\\"")) *)
-          T "{""issues"": [""Error diverting to '" ++ path ++ T "': " ++ replace_quote err
-          ++ T """]}" ++ nl
-        else
-          T "{""issues"": [""" ++ esc (divert_message path err) ++ T """]}" ++ nl
-    | MCmdOutput =>
-        T "{""cmdOutput"": """
-        ++ (if N.eqb help_mode 0 then replace_quote help_msg else esc help_msg)
-        ++ T """}" ++ nl
-    | MNeedInput => T "{""needInput"": true}"
-    | MEnd => T "{""end"": true}" ++ nl
-    | MClose => T "{""close"": true}" ++ nl
-    end.
-End Render.
-
+(* what the player writes for a message in -j mode *)
 Definition render_json (m : cli_msg) : text :=
   render_json_gen cli_escape_arms cli_divert_mode cli_help_mode cli_help_msg m.
 
 (* what a consumer must read back: the single key and its value *)
-Definition msg_key (m : cli_msg) : text :=
-  match m with
-  | MText _ => T "text" | MTags _ => T "tags" | MChoices _ => T "choices"
-  | MIssues _ | MDivertIssue _ _ => T "issues" | MCmdOutput => T "cmdOutput"
-  | MNeedInput => T "needInput" | MEnd => T "end" | MClose => T "close"
-  end.
-
-Definition choice_payload (c : text * list text) : json :=
-  let (t, tags) := c in
-  match tags with
-  | [] => JObj [(T "text", JStr t)]
-  | _ => JObj [(T "text", JStr t); (T "tags", JArr (map JStr tags));
-               (T "tag_count", JInt (Z.of_nat (length tags)))]
-  end.
-
-Definition msg_payload_gen (help_msg : text) (m : cli_msg) : json :=
-  match m with
-  | MText s => JStr s
-  | MTags tags => JArr (map JStr tags)
-  | MChoices cs => JArr (map choice_payload cs)
-  | MIssues msgs => JArr (map JStr msgs)
-  | MDivertIssue path err => JArr [JStr (divert_message path err)]
-  | MCmdOutput => JStr help_msg
-  | MNeedInput | MEnd | MClose => JBool true
-  end.
 Definition msg_payload (m : cli_msg) : json := msg_payload_gen cli_help_msg m.
-
 Definition msg_json (m : cli_msg) : json := JObj [(msg_key m, msg_payload m)].
-
-(* the format literals render_json is written with, in the order in which the
-   source has them (compared with Gen/CliGen.cli_json_formats by Cli/CliTie.v) *)
-Definition expected_formats (divert_mode : N) : list (list text) :=
-  [ [T "{""end"": true}"]; [T "{""needInput"": true}"]; [T "{""close"": true}"] ]
-  ++ (if N.eqb divert_mode 0
-      then [ [T "{""issues"": [""Error diverting to '"; T "': "; T """]}"] ]
-      else [ [T "{""issues"": ["""; T """]}"]; [T "Error diverting to '"; T "': "; []] ])
-  ++ [ [T "{""cmdOutput"": """; T """}"];
-       [T "{""text"": """; T """}"];
-       [T """"; T """"];
-       [T "{""tags"": ["; T "]}"];
-       [T """"; T """"];
-       [T "{""issues"": ["; T "]}"];
-       [T "{""text"": """; T """}"];
-       [T """"; T """"];
-       [T "{""text"": """; T """, ""tags"": ["; T "], ""tag_count"": "; T "}"];
-       [T "{""choices"": ["; T "]}"] ].
-
-(* ---------- input ---------- *)
-Inductive input_result :=
-| IChoice (idx : N) | IDivert (path : text) | IHelp | IExit | IUnknown.
-
-(* str::to_lowercase is full Unicode lower-casing.  Its result is only ever
-   compared with the ASCII words quit / exit / help.  The only non-ASCII scalar
-   value whose lower-case expansion is pure ASCII is U+212A KELVIN SIGN (-> k),
-   and k occurs in none of the three words, so for these comparisons ASCII
-   lower-casing gives the same answer.  (U+0130 lower-cases to i + U+0307.)
-   The differential check feeds such inputs to the real binary. *)
-Definition ascii_lower (c : N) : N := if (65 <=? c) && (c <=? 90) then c + 32 else c.
-Definition lower_is (input kw : text) : bool := text_eqb (map ascii_lower input) kw.
-
-(* str::split_whitespace: maximal runs of non-White_Space characters *)
-Fixpoint split_ws_aux (t : text) (cur : text) : list text :=
-  match t with
-  | [] => match cur with [] => [] | _ => [rev cur] end
-  | c :: r =>
-      if is_unicode_ws c then
-        match cur with [] => split_ws_aux r [] | _ => rev cur :: split_ws_aux r [] end
-      else split_ws_aux r (c :: cur)
-  end.
-Definition split_whitespace (t : text) : list text := split_ws_aux t [].
-
-(* player.rs:parse_input *)
-Definition parse_input (input : text) : input_result :=
-  if lower_is input (T "quit") || lower_is input (T "exit") then IExit
-  else if lower_is input (T "help") then IHelp
-  else
-    match split_whitespace input with
-    | [w0; w1] =>
-        if text_eqb w0 (T "->") then IDivert w1
-        else match parse_usize (trim input) with
-             | Some n => if 1 <=? n then IChoice (n - 1) else IUnknown
-             | None => IUnknown
-             end
-    | _ =>
-        match parse_usize (trim input) with
-        | Some n => if 1 <=? n then IChoice (n - 1) else IUnknown
-        | None => IUnknown
-        end
-    end.
-
-(* what the loop does with one line of input (player.rs:play, inner loop):
-   the line is trimmed; a blank line asks again without any output *)
-Inductive line_action :=
-| LAgain                    (* blank, unknown, out-of-range number: ask again *)
-| LChoose (idx : N)
-| LDivert (path : text)
-| LHelp
-| LQuit.
-
-Definition line_action_of (nchoices : N) (raw : text) : line_action :=
-  let t := trim raw in
-  match t with
-  | [] => LAgain
-  | _ =>
-      match parse_input t with
-      | IChoice i => if nchoices <=? i then LAgain else LChoose i
-      | IDivert p => LDivert p
-      | IHelp => LHelp
-      | IExit => LQuit
-      | IUnknown => LAgain
-      end
-  end.
-
-(* ---------- the play loop: SLOT ----------
-   Statement to be proved once the engine model (Shell/Story.v) exists:
-
-     Theorem player_matches_library : forall story inputs mode,
-       shown (Player.play mode story inputs)
-       = library_transcript story (choices_of story inputs).
-
-   where Player.play is the loop of player.rs:play (evaluate_story until
-   !can_continue; flush_messages after every line; print choices; read lines
-   with [line_action_of]; choose_choice_index / choose_path_string), [shown]
-   keeps the text / tags / choices messages and [library_transcript] is
-   cont / get_current_tags / get_current_choices of the model story driven by
-   the same choice indices and diverts.  Until then this equivalence is covered
-   by the differential check tools/props/c20.py (real binary vs inkdrive on the
-   library), and the pieces the loop is made of are modelled above.          *)
